@@ -266,7 +266,7 @@ def main(argv=None):
 
     # ---------------------------------------------------------------- report
     rc = 0
-    replay_dir = os.path.join(VERIF, "replays", pid) if not os.environ.get("VERIF_NO_EVIDENCE") else os.path.join(runner.REPO, "_replays", pid)
+    replay_dir = os.path.join(VERIF, "replays", pid) if not os.environ.get("VERIF_NO_EVIDENCE") else os.path.join(runner.REPO if runner.REPO != "/repo" else "/tmp/verif_scratch", "_replays", pid)
     printed_known = set()
     for k, full in known_hits:
         key = k.get("id", k.get("what"))
